@@ -344,7 +344,7 @@ func checkC12(c *Ctx) {
 	allInstrs(sSet, func(in ssa.Instruction) {
 		if mu, ok := in.(*ssa.MapUpdate); ok {
 			nStore++
-			if path(mu.Map) != sSet.Params[0].Name()+".CheckPattern" {
+			if path(mu.Map) != pname(sSet.Params[0])+".CheckPattern" {
 				okStore = false
 				foreign = path(mu.Map)
 			}
@@ -604,7 +604,7 @@ func checkC12(c *Ctx) {
 					if h := call.Call.StaticCallee(); h != nil && h.Pkg == th.Pkg && len(h.Blocks) > 0 && h != cur.g {
 						for k, a := range call.Call.Args {
 							if a == ssa.Value(cur.tz) && k < len(h.Params) {
-								tzs = append(tzs, tzCtx{h, h.Params[k], cur.nonEmpty || nonEmptyAt(call.Block(), cur.tz.Name())})
+								tzs = append(tzs, tzCtx{h, h.Params[k], cur.nonEmpty || nonEmptyAt(call.Block(), pname(cur.tz))})
 							}
 						}
 					}
@@ -613,7 +613,7 @@ func checkC12(c *Ctx) {
 		}
 		for _, tc := range tzs {
 			th := tc.g
-			tzName := tc.tz.Name()
+			tzName := pname(tc.tz)
 			allInstrs(th, func(in ssa.Instruction) {
 				ix, ok := in.(*ssa.Index)
 				if !ok || path(ix.X) != tzName {
